@@ -953,6 +953,17 @@ def check_C16(run):
         for seq in sample + random_sequences(rng, side, 10000 if thorough else 600, 12):
             for j in range(3 if thorough else 1):
                 emit(seq, configs[(k * 7 + j) % len(configs)])
+        # size ladder: requests and limits on both sides of block sizes an implementation might introduce
+        for n in (31, 32, 33, 64, 127, 128, 129, 255, 256, 257, 4095, 4096, 4097) + ((65535, 65536, 65537) if thorough else ()):
+            rd = side == "r"
+            shapes = [[{"op": "r1" if rd else "w1", "n": 1}, {"op": "skip" if rd else "skipw", "n": n}, {"op": "rn" if rd else "wn", "n": 4}],
+                      [{"op": "ensure" if rd else "prepare", "n": n}, {"op": "rn" if rd else "wn", "n": n}, {"op": "pad" if rd else "padw", "n": 1}],
+                      [{"op": "rn" if rd else "wn", "n": 3}, {"op": "rn" if rd else "wn", "n": n}, {"op": "r1" if rd else "w1", "n": 1}]]
+            for seq in shapes:
+                total = sum(c["n"] for c in seq if c["op"] not in ("ensure", "prepare", "pad", "padw"))
+                for kind in kinds:
+                    for lim in (total - 1, total, total + 40):
+                        emit(seq, (kind, lim, total + 50 if lim != total else total, 0))
     cmds = with_resets(cmds, 200)
     run.samples = [c for c in cmds if c.get("c") == "io"][:2] + [c for c in cmds if c.get("side") == "w"][:1]
     run.distinct = set(vf.digest(c) for c in cmds)
@@ -1019,6 +1030,44 @@ def check_C17(run):
                     cmds.append({"c": "io", "side": "w", "kind": "fdpart", "bounded": bounded, "direct": True,
                                  "limit": 100000 if bounded else 0, "ops": io_ops(seq, "w", k), "cap": cap})
                     k += 1
+    # size ladder: every primitive with request sizes on both sides of the block sizes an implementation might introduce
+    # (32, 64, 128, 256, 512, 4096, 64 Ki), with a source / capacity that just suffices and one that is one byte short
+    ladder = [31, 32, 33, 63, 64, 65, 96, 127, 128, 129, 160, 255, 256, 257, 511, 512, 513, 1024, 4095, 4096, 4097]
+    if thorough:
+        ladder += [8191, 8192, 8193, 65535, 65536, 65537]
+    for side in ("r", "w"):
+        lkinds = (["pedantic", "buffer", "sstream", "fstream", "fd", "fdintr"] if side == "r"
+                  else ["pedantic", "buffer", "constexpr", "sstream", "fd", "lstream", "fdintr"])
+        for kind in lkinds:
+            for bounded in (False, True):
+                for li, n in enumerate(ladder):
+                    if n > 4097 and kind in ("fd", "fdintr"):
+                        continue
+                    shapes = []
+                    if side == "r":
+                        if not kind.startswith("fd"):
+                            shapes.append([{"op": "r1", "n": 1}, {"op": "skip", "n": n}, {"op": "rn", "n": 4}, {"op": "r1", "n": 1}])
+                        shapes.append([{"op": "ensure", "n": n}, {"op": "rn", "n": n}, {"op": "r1", "n": 1}])
+                        shapes.append([{"op": "rn", "n": 3}, {"op": "rn", "n": n}, {"op": "rn", "n": 2}])
+                    else:
+                        if not kind.startswith("fd"):
+                            shapes.append([{"op": "w1", "n": 1}, {"op": "skipw", "n": n}, {"op": "wn", "n": 4}, {"op": "w1", "n": 1}])
+                        shapes.append([{"op": "prepare", "n": n}, {"op": "wn", "n": n}, {"op": "w1", "n": 1}])
+                        shapes.append([{"op": "wn", "n": 3}, {"op": "wn", "n": n}, {"op": "wn", "n": 2}])
+                    for si, seq in enumerate(shapes):
+                        total = sum(c["n"] for c in seq if c["op"] not in ("ensure", "prepare"))
+                        # alternately: exactly enough, one byte short (the last call must fail, nothing before it)
+                        ln = total if (li + si + k) % 2 == 0 else total - 1
+                        if kind == "buffer" and side == "w":
+                            ln = total          # the unchecked writer may only be used within its capacity
+                        c = {"c": "io", "side": side, "kind": kind, "bounded": bounded, "direct": True,
+                             "limit": (total + 3 if (li + si) % 3 else total - 1) if bounded else 0, "ops": io_ops(seq, side, k)}
+                        if side == "r":
+                            c["src"] = [(33 + 5 * i) % 256 for i in range(ln)]
+                        else:
+                            c["cap"] = ln
+                        cmds.append(c)
+                        k += 1
     # a sink that stops taking bytes must end a Skip of ~2^64 bytes at once; a change that loses this would make each
     # such command run into the executor's timeout, so they go last (after everything that can be judged quickly)
     slow = [c for c in cmds if c["kind"] == "lstream" and any(o["op"] == "skipw" and not isinstance(o["n"], int) for o in c["ops"])]
